@@ -487,6 +487,7 @@ int main(int argc, char **argv)
     vf_init(argc, argv, "C01", "exploration");
     ph_init_cfgs();
     int th = vf_is_thorough();
+    if (th && vf_deadline_s == 1500) vf_deadline_s = 3000;      /* 2.2 * 10^11 pixels: about 22 minutes on the idle 16-core machine, twice that next to other jobs */
     vf_rule = "E1: every tuple of the stated alphabets is a pixel of a Wx1 strip composited by pixman_image_composite32; R carries the enumerated colour variable, "
               "G and B bijective scramblings of it. exact class (13 Porter-Duff ops + ADD, <=8 bit): bit-exact against round-to-nearest products and saturating sums; "
               "tolerance class: within 1 destination step of the long-double Render/PDF equations (2 steps for the integer-evaluated separable blend modes). "
